@@ -122,7 +122,12 @@ def program_value(v, colname: str) -> dict:
         cols += [["const", lit], ["eq_rev", {"fn": "equal", "args": [lit, x]}]]
         if not isinstance(v, bool):
             cols += [["lt", {"fn": "less_than", "args": [x, lit]}], ["sum", {"fn": "add", "args": [x, lit]}], ["diff", {"fn": "sub", "args": [x, lit]}],
-                     ["prod", {"fn": "mul", "args": [lit, x]}], ["neg", {"fn": "neg", "args": [{"fn": "add", "args": [x, lit]}]}]]
+                     ["prod", {"fn": "mul", "args": [lit, x]}], ["neg", {"fn": "neg", "args": [{"fn": "add", "args": [x, lit]}]}],
+                     # a sign applied to the literal itself: `- -3` must not become the comment `--3`
+                     ["neg_lit", {"fn": "add", "args": [x, {"fn": "neg", "args": [lit]}]}],
+                     ["sub_neg_lit", {"fn": "sub", "args": [x, {"fn": "neg", "args": [lit]}]}],
+                     ["neg_neg_lit", {"fn": "mul", "args": [x, {"fn": "neg", "args": [{"fn": "neg", "args": [lit]}]}]}],
+                     ["pos_lit", {"fn": "add", "args": [{"fn": "pos", "args": [lit]}, x]}]]
     data = {"i": [3, None, -3, 0, 7], "f": [1.5, None, -2.5, 0.0, 2.5], "b": [True, None, False, True, False], "s": ["a", None, "", "None", "NULL"]}
     dts = {"i": "int64", "f": "float64", "b": "bool", "s": "string"}
     pred = {"fn": "bool_or", "args": [{"fn": "is_null", "args": [{"fn": "equal", "args": [x, lit]}]}, {"lit": True}]}
